@@ -114,9 +114,9 @@ struct Seed {
   std::vector<uint8_t> bytes;
 };
 
-static std::vector<Seed> load_seeds() {
+static std::vector<Seed> load_seeds(const char *var = "VERIF_SEED_DIRS", const char *dflt = "/verif/corpus/legacy") {
   std::vector<std::string> files;
-  std::stringstream ss(env("VERIF_SEED_DIRS", "/verif/corpus/legacy"));
+  std::stringstream ss(env(var, dflt));
   std::string d;
   while (std::getline(ss, d, ':')) {
     DIR *dir = opendir(d.c_str());
@@ -314,6 +314,37 @@ static std::string enumerate_seed(const Seed &seed, const std::vector<Seed> &all
   return "";
 }
 
+// Light enumeration for the representatives of the structure classes that did not fit the dense set: every truncation
+// and, at every offset, the four single-byte patterns that turn small counts / ids into 0, negative or larger values.
+static std::string enumerate_light(const Seed &seed, size_t seed_index) {
+  const std::vector<uint8_t> &s = seed.bytes;
+  const size_t n = s.size();
+  std::string e = test_one(s, 5, 0, true, "valid_seed");
+  if (!e.empty()) return e;
+  const size_t dense = 1024;
+  const size_t stride = n > dense ? std::max<size_t>(17, n / (dense / 2 + 1)) : 1;
+  for (size_t off = 0; off < n; ++off) {
+    if (!(off < dense || (off % stride) == (seed_index % stride))) continue;
+    const int entry = (off % 9 == 8) ? static_cast<int>((off / 9) % 5) : 5;
+    const unsigned skip = (off % 7 == 3) ? static_cast<unsigned>((off / 7) % 32) : 0;
+    {
+      std::vector<uint8_t> m(s.begin(), s.begin() + off);
+      e = test_one(m, entry, skip, false, "light_truncation");
+      if (!e.empty()) return e;
+    }
+    const uint8_t o = s[off];
+    const uint8_t pats[4] = {0x00, 0xff, static_cast<uint8_t>(o ^ 0x80), static_cast<uint8_t>(o + 1)};
+    for (int k = 0; k < 4; ++k) {
+      if (pats[k] == o) continue;
+      std::vector<uint8_t> m = s;
+      m[off] = pats[k];
+      e = test_one(m, entry, skip, false, "light_byte_pattern");
+      if (!e.empty()) return e;
+    }
+  }
+  return "";
+}
+
 int main(int argc, char **argv) {
   if (&__sanitizer_set_death_callback) __sanitizer_set_death_callback(on_death);
   g_prop = env("VERIF_PROP", "C02");
@@ -348,7 +379,8 @@ int main(int argc, char **argv) {
       "every truncation; at every offset the byte patterns {00, FF, ^01, ^80, +1, -1}, 32-bit patterns {0, 7FFFFFFF, 80000000, "
       "FFFFFFFF}, varint patterns {overlong, max, 5 and 10 continuation bytes}; count fields rewritten as u32 and varint to "
       "{+1, x2, 2^16, 2^24, 2^31-1, 2^32-1}; header rewrites (major 0..3 x minor 0..4 x type x method, metadata flag); splices and "
-      "random multi-site corruptions; seeds longer than the dense bound are enumerated densely up to it and sampled beyond; each "
+      "random multi-site corruptions; the representatives of further structure classes (light seeds) get every truncation and the "
+      "byte patterns {00, FF, ^80, +1} only; seeds longer than the dense bound are enumerated densely up to it and sampled beyond; each "
       "input through the natural entry point and, rotating, the other entry points and skip masks. Non-trivial (" +
       std::string(g_prop_num == 3 ? "C03: a corrupted input on which a decode call returned ok" : "a corrupted input that got past header parsing - a count was declared") +
       "), distinct by input hash (shards work on disjoint seeds; per-shard distinct counts are summed)";
@@ -362,6 +394,19 @@ int main(int argc, char **argv) {
     g_seed_over_budget = false;
     g_seed_deadline = std::chrono::steady_clock::now() + std::chrono::seconds(thorough ? 240 : 8);
     err = enumerate_seed(seeds[i], seeds, i, thorough, count_focus);
+  }
+  {
+    std::vector<Seed> light = load_seeds("VERIF_LIGHT_SEED_DIRS", "");
+    size_t lmine = 0;
+    for (size_t i = 0; i < light.size() && err.empty(); ++i) {
+      if (static_cast<int>(i % nshards) != (shard + 7) % nshards) continue;
+      ++lmine;
+      alarm(thorough ? 3000 : 900);
+      g_seed_over_budget = false;
+      g_seed_deadline = std::chrono::steady_clock::now() + std::chrono::seconds(thorough ? 120 : 4);
+      err = enumerate_light(light[i], i);
+    }
+    count("light_seed_streams", lmine);
   }
   alarm(0);
   count("seed_streams", mine);
